@@ -7,8 +7,8 @@ CONSTANTS
   Symbols = {"aaa"}
   Scales = {1, 2}
   Initials = {0, 2}
-  Maxes = {0, 3}
-  Amounts = {5, 10, 100}
+  Maxes = {3}
+  Amounts = {5, 10}
   EditMaxes = {0, 1, 3}
   EditMint = {"", "true", "false"}
   MintTo = {"", "u3"}
